@@ -22,7 +22,8 @@ META = {
     "text": "TLC runs spec/StoreGc.tla (Store.Gc loop by loop on slice+index metrics, RemoveOldestDatum tie-breaking included) from "
             "every store of 1 metric x <=3 (thorough 4, model-only 5) data x timestamps 1-3 x expiry 0-2 x limit 0-3(4) and of 2 "
             "metrics x <=2 data, at every GC time 1-5(6), checking the statement GcPost; every finished pass is replayed on a real "
-            "metrics.Store through Store.Gc() and the stores compared datum by datum.",
+            "metrics.Store through Store.Gc() and the stores compared datum by datum; then a SECOND pass is run on the store each "
+            "pass left (T2 in {T, T+1, T+2}, one datum re-stamped) and TLC judges the real (before, T2, after) with GcPost itself.",
     "note": "Gc reads time.Now(): model time t is mapped to now-(T-t)h+30min, so 'older than expiry' is reproduced for all integer "
             "ages; the exact boundary age == expiry (strict '>') is decided in the model only.",
     "technique": "TLA+ spec + TLC exhaustive over initial stores, every pass replayed into real metrics.Store.Gc (direction A); real deviations judged by the TLA+ predicate",
